@@ -184,6 +184,19 @@ func (idx *FlatIndex) Add(vector VectorNode) error {
 	}
 
 	// Simply append the preprocessed vector to our flat storage
+	// Re-adding a removed ID is an update: drop the stale soft-deleted entry
+	// so that the new vector is visible and survives the next Flush.
+	if id := vector.ID(); idx.deletedNodes.Contains(id) {
+		kept := idx.vectors[:0]
+		for _, v := range idx.vectors {
+			if v.ID() != id {
+				kept = append(kept, v)
+			}
+		}
+		idx.vectors = kept
+		idx.deletedNodes.Remove(id)
+	}
+
 	idx.vectors = append(idx.vectors, vector)
 	return nil
 }
